@@ -262,6 +262,31 @@ func init() {
 		}
 		return "differs"
 	}
+	// ptnedit: a game is parsed, then edited the way a tool does (annotations of every other move replaced, every third
+	// comment replaced, the result replaced), then rendered: the text must be the rendering of the EDITED value
+	opTable["ptnedit"] = func(s *Session, a []string) string {
+		p, err := ptn.ParsePTN(bytes.NewReader(hexDec(a[0])))
+		if err != nil {
+			return "err"
+		}
+		mods, com := string(hexDec(a[1])), string(hexDec(a[2]))
+		nm, nc := 0, 0
+		for _, o := range p.Ops {
+			switch o := o.(type) {
+			case *ptn.Move:
+				if nm%2 == 0 {
+					o.Modifiers = mods
+				}
+				nm++
+			case *ptn.Comment:
+				if nc%3 == 0 {
+					o.Comment = com
+				}
+				nc++
+			}
+		}
+		return hexEnc([]byte(p.Render()))
+	}
 	opTable["ptnaddmoves"] = func(s *Session, a []string) string {
 		var ms []tak.Move
 		for _, t := range a {
